@@ -7,4 +7,10 @@ MODULES = [
     "specs.vault",
     "specs.xpath",
     "specs.typed",
+    "specs.row",
+    "specs.b_text",
+    "specs.b_package",
+    "specs.b_values",
+    "specs.b_elements",
+    "specs.b_tables",
 ]
